@@ -26,7 +26,31 @@ fn rep(kind: &str, p: &[i64], frame: &[u8]) -> Value {
     json!({"kind": kind, "p": p, "frame": hex::encode(frame)})
 }
 
+thread_local! {
+    /// When set, every frame the field sweeps build on this thread is recorded and nothing is judged (used by C08 to
+    /// put every code of every field through its range oracle).
+    static TAP: std::cell::RefCell<Option<Vec<Vec<u8>>>> = const { std::cell::RefCell::new(None) };
+}
+
+fn tapping() -> bool {
+    TAP.with(|t| t.borrow().is_some())
+}
+
+/// Every frame of the per-field code sweeps (all but the 4.2 M velocity pairs and the altitude tables, which C08
+/// and C13 enumerate themselves), built by the independent encoder.
+pub fn collect_frames(tier: vcore::ev::Tier, seed: u64) -> Vec<Vec<u8>> {
+    TAP.with(|t| *t.borrow_mut() = Some(vec![]));
+    let ctx = Ctx::new("C03", tier, seed);
+    run(&ctx);
+    TAP.with(|t| t.borrow_mut().take()).unwrap_or_default()
+}
+
 fn dec(kind: &str, p: &[i64], frame: Vec<u8>) -> Result<Dec, Failure> {
+    TAP.with(|t| {
+        if let Some(v) = t.borrow_mut().as_mut() {
+            v.push(frame.clone());
+        }
+    });
     let r = catch(|| Message::try_from(frame.as_slice())).map_err(|m| Failure::new(format!("c03:{kind}:panic"), m, rep(kind, p, &frame)))?;
     let msg = r.map_err(|e| Failure::new(format!("c03:{kind}:rejected"), format!("a frame the standard allows was rejected: {e}"), rep(kind, p, &frame)))?;
     let js = serde_json::to_value(&msg).map_err(|e| Failure::new(format!("c03:{kind}:json-error"), e.to_string(), rep(kind, p, &frame)))?;
@@ -66,14 +90,22 @@ fn chk_addr(p: &[i64]) -> Check {
     let me = enc::me_ident(4, 3, &[1, 2, 3, 32, 49, 50, 51, 32]);
     let frame = match carrier {
         0 => enc::df17((r.next() & 7) as u8, addr, &me),
-        1 => enc::df18([0u8, 1, 2, 5, 6][r.below(5) as usize], addr, &me),
-        _ => enc::df11((r.next() & 7) as u8, addr, 0),
+        1 => enc::df18((r.next() & 7) as u8, addr, &me),
+        2 => enc::df11((r.next() & 7) as u8, addr, 0),
+        // address / parity formats: the address is what remains of the parity field
+        3 => enc::df0(0, 0, 0, 0, enc::ac13_q((r.next() % 2047) as u16), addr),
+        4 => enc::df4((r.next() & 7) as u8, 0, 0, enc::ac13_q((r.next() % 2047) as u16), addr),
+        5 => enc::df5((r.next() & 7) as u8, 0, 0, enc::id13((r.next() & 7) as u8, (r.next() & 7) as u8, (r.next() & 7) as u8, (r.next() & 7) as u8), addr),
+        6 => enc::df16(0, 0, 0, enc::ac13_q((r.next() % 2047) as u16), &r.next().to_be_bytes()[..7].try_into().unwrap(), addr),
+        7 => enc::df20(0, 0, 0, enc::ac13_q((r.next() % 2047) as u16), &enc::mb_bds20(&[1, 2, 3, 32, 49, 50, 51, 32]), addr),
+        _ => enc::df21(0, 0, 0, enc::id13((r.next() & 7) as u8, (r.next() & 7) as u8, (r.next() & 7) as u8, (r.next() & 7) as u8), &r.next().to_be_bytes()[..7].try_into().unwrap(), addr),
     };
     let d = dec("addr", p, frame)?;
     let got = match &d.msg.df {
         DF::ExtendedSquitterADSB(a) => a.icao24.0,
         DF::ExtendedSquitterTisB { cf, .. } => cf.aa.0,
         DF::AllCallReply { icao, .. } => icao.0,
+        DF::ShortAirAirSurveillance { ap, .. } | DF::SurveillanceAltitudeReply { ap, .. } | DF::SurveillanceIdentityReply { ap, .. } | DF::LongAirAirSurveillance { ap, .. } | DF::CommBAltitudeReply { ap, .. } | DF::CommBIdentityReply { ap, .. } => ap.0,
         _ => return Err(bad("addr", "wrong-df", p, &d, format!("{:?}", d.msg.df))),
     };
     if got != addr {
@@ -798,6 +830,12 @@ const FIELDS: &[(&str, Chk)] = &[
 
 /// run a list of parameter vectors for one field; sequential (ascending => smallest failing code reported)
 fn sweep(ctx: &Ctx, kind: &str, f: Chk, params: impl Iterator<Item = Vec<i64>>) {
+    if tapping() {
+        for p in params {
+            let _ = f(&p);
+        }
+        return;
+    }
     let mut n = 0u64;
     let mut reported = false;
     for p in params {
@@ -833,7 +871,7 @@ pub fn run(ctx: &Ctx) {
     for _ in 0..ctx.tier.pick(20_000, 400_000) {
         addrs.push((r.next() & 0xff_ffff) as u32);
     }
-    sweep(ctx, "addr", f("addr"), addrs.iter().flat_map(|a| (0..3).map(move |c| vec![c, *a as i64])));
+    sweep(ctx, "addr", f("addr"), addrs.iter().flat_map(|a| (0..9).map(move |c| vec![c, *a as i64])));
     sample_of(ctx, "addr", &[0, 0x3c6444]);
 
     // call signs: every code at every position; BDS 0,8 over TC 1-4 x CA 0-7, BDS 2,0 in DF20 and DF21
@@ -853,7 +891,7 @@ pub fn run(ctx: &Ctx) {
     sample_of(ctx, "callsign", &[0, 4, 3, 7, 32]);
 
     // altitudes: Q-bit codes through every carrier (Gillham codes are C13's exhaustive sweep, reused here)
-    {
+    if !tapping() {
         let t = c13::tables();
         let mut n = 0u64;
         for nq in 0..2048u16 {
@@ -901,7 +939,7 @@ pub fn run(ctx: &Ctx) {
     sample_of(ctx, "squawk", &[0, 0o7700]);
 
     // velocity subtype 1: all 2x1023 x 2x1023 pairs (parallel; smallest failing index reported)
-    {
+    if !tapping() {
         let stride: i64 = ctx.tier.pick(1, 1);
         let failures: Mutex<Vec<(u64, Failure)>> = Mutex::new(vec![]);
         let n: u64 = (0..2046i64)
@@ -1059,6 +1097,9 @@ pub fn run(ctx: &Ctx) {
     sweep(ctx, "df20label", f("df20label"), v.into_iter());
     sample_of(ctx, "df20label", &[11, 0xc38, c13::ac12_to_ac13(0xc38) as i64]);
 
+    if tapping() {
+        return;
+    }
     // random plausible combinations of all fields of the Comm-B registers
     let cases = ctx.tier.pick(20_000u32, 600_000u32);
     run_prop(ctx, "combo50", cases, (0i64..2, -284i64..=284, -1024i64..=1023, 40i64..=250, -100i64..=100, 0i64..=510, 0i64..2), |(carrier, roll, trk, tas, dgs, rmag, rs)| {
